@@ -741,6 +741,7 @@ class Interp:
         self.ext_names = {}
         self.effects = set()
         self.budget = None
+        self.cast_events = None     # list to collect value-changing integer casts
         self.skip_bodies = set()    # workspace functions treated as opaque (rule-specific runs)
         self.partitions = {}        # fn name -> {variable names}: trace partitioning directives
         self.partitions_found = {}
@@ -756,6 +757,9 @@ class Interp:
                 for nme, p in body['dbg']:
                     if nme in names and not p['p']:
                         i.part_locals[p['l']] = nme
+                for x in names:
+                    if isinstance(x, int):
+                        i.part_locals[x] = '_%d' % x
                 self.partitions_found.setdefault(body['name'], set()).update(i.part_locals.values())
             self.infos[body['id']] = i
         return i
@@ -1868,6 +1872,9 @@ class InterpOps:
             if v[0] != 'I':
                 return self.expand(('T', tyid, self.site(frame, bb, idx)))
             lo_t, hi_t = int_range(dty)
+            if self.cast_events is not None and dty['k'] in ('int', 'uint'):
+                self.cast_events.append((frame.body['name'], '%s:%s' % (frame.body['file'], frame.body['blocks'][bb]['s'][idx].get('sp')),
+                                         (v[1], v[2]), dty['s'], frame.path))
             if v[1] >= lo_t and v[2] <= hi_t:
                 return v
             bits = dty['bits'] if 'bits' in dty else 64
